@@ -17,9 +17,10 @@ COQ = os.path.join(VERIF, 'coq')
 WORK = os.path.join(VERIF, 'work')
 NPROC = str(os.cpu_count() or 8)
 
-FORBIDDEN = re.compile(r'\b(Admitted|admit|Axiom|Axioms|Parameter|Parameters|Conjecture|Hypothesis|Hypotheses|'
+FORBIDDEN = re.compile(r'\b(Admitted|admit|Axiom|Axioms|Parameter|Parameters|Conjecture|Conjectures|'
                        r'Admit Obligations)\b|Unset\s+Guard|bypass_check|Unset\s+Positivity|Unset\s+Universe|'
                        r'type-in-type|impredicative-set|native_compute')
+SECTION_ONLY = re.compile(r'^\s*(Variable|Variables|Hypothesis|Hypotheses|Context)\b')
 
 
 def sh(cmd, timeout=600, cwd=None, env=None, stdin=None):
@@ -84,8 +85,13 @@ def scan_forbidden():
                 continue
             txt = open(os.path.join(d, fn)).read()
             txt_nc = re.sub(r'\(\*.*?\*\)', lambda m: re.sub(r'[^\n]', ' ', m.group(0)), txt, flags=re.S)
+            depth = 0
             for i, line in enumerate(txt_nc.split('\n'), 1):
-                if FORBIDDEN.search(line):
+                if re.match(r'^\s*Section\s+\w+\s*\.', line):
+                    depth += 1
+                elif re.match(r'^\s*End\s+\w+\s*\.', line):
+                    depth = max(0, depth - 1)
+                if FORBIDDEN.search(line) or (depth == 0 and SECTION_ONLY.search(line)):
                     hits.append('%s/%s:%d: %s' % (sub, fn, i, line.strip()))
     return hits
 
@@ -258,6 +264,9 @@ def _is_float_tok(t):
 def tok_equal(a, b, rtol, atol):
     if a == b:
         return True
+    if ',' in a and ',' in b:
+        pa, pb = a.split(','), b.split(',')
+        return len(pa) == len(pb) and all(tok_equal(x, y, rtol, atol) for x, y in zip(pa, pb))
     if _is_float_tok(a) and _is_float_tok(b):
         try:
             x, y = float.fromhex(a), float.fromhex(b)
